@@ -28,6 +28,8 @@ Section AexprInd.
   Hypothesis HFinal : forall e, P e -> P (EFinal e).
   Hypothesis HClassVar : forall e, P e -> P (EClassVar e).
   Hypothesis HStr : forall e, P e -> P (EStr e).
+  Hypothesis HAlias : forall n, P (EAlias n).
+  Hypothesis HAliasApp : forall n es, Forall P es -> P (EAliasApp n es).
 
   Fixpoint aexpr_ind' (e : aexpr) : P e :=
     let go := fix go (l : list aexpr) : Forall P l :=
@@ -57,6 +59,8 @@ Section AexprInd.
     | EFinal e => HFinal e (aexpr_ind' e)
     | EClassVar e => HClassVar e (aexpr_ind' e)
     | EStr e => HStr e (aexpr_ind' e)
+    | EAlias n => HAlias n
+    | EAliasApp n es => HAliasApp n es (go es)
     end.
 End AexprInd.
 
@@ -81,7 +85,8 @@ Lemma tables_agree :
   act ast_table FTupleFixed = act rt_table FTupleFixed /\ act ast_table FType = act rt_table FType /\
   act ast_table FAnnotated = act rt_table FAnnotated /\ act ast_table FFinal = act rt_table FFinal /\
   act ast_table FClassVar = act rt_table FClassVar /\ act ast_table FUnpack = act rt_table FUnpack /\
-  act ast_table FCallable = act rt_table FCallable /\ act ast_table FGenericClass = act rt_table FGenericClass.
+  act ast_table FCallable = act rt_table FCallable /\ act ast_table FGenericClass = act rt_table FGenericClass /\
+  act ast_table FTypeAlias = act rt_table FTypeAlias.
 Proof. repeat split; reflexivity. Qed.
 
 (* Optional is a union with None on the AST route; typing makes it a Union for the runtime route *)
@@ -127,6 +132,7 @@ Proof.
   - (* Annotated *) rewrite IHe. reflexivity.
   - (* Final *) rewrite IHe. reflexivity.
   - (* ClassVar *) rewrite IHe. reflexivity.
+  - (* AliasApp *) rewrite (map_eq_Forall _ _ _ _ _ H). reflexivity.
 Qed.
 
 Theorem routes_commute_all : forall e,
